@@ -24,6 +24,7 @@ type faultCfg struct {
 	ByzRate     int64 // mean virtual us between byzantine messages
 	FaultSteps  int
 	Stall       float64
+	Neighbour   bool // other hands are started in the same process while this one runs
 	Staller     bool // every honest client prefers the action that moves no chips (bet 0, check, pass)
 }
 
@@ -48,6 +49,7 @@ func drawFaults(r *sim.RNG, n int) *faultCfg {
 	f.Hop = pick(0.6, 0.1, 0.33, 0.7)
 	f.Stall = pick(0.3, 0.02, 0.05)
 	f.AcceptStale = r.Chance(0.5)
+	f.Neighbour = r.Chance(0.3)
 	if r.Chance(0.6) {
 		k := 1 + r.Intn(2)
 		for j := 0; j < k; j++ {
@@ -409,6 +411,16 @@ func (h *hand) heartbeat() {
 	}
 	if h.closed() && h.extra >= 2 {
 		return
+	}
+	if h.faultsOn && h.fc.Neighbour && !h.closed() && h.rng.Chance(0.4) {
+		st := sim.Step{T: h.loop.Now, Actor: "server", Op: "neighbour", Mode: "warm", Fault: "neighbour-hand"}
+		idx := len(h.r.steps)
+		h.r.steps = append(h.r.steps, st)
+		d := h.r.srv.deliver(&h.r.steps[idx], idx)
+		h.r.observe(d)
+		if h.r.dead {
+			return
+		}
 	}
 	if h.faultsOn && h.fc.Stall > 0 {
 		for _, c := range h.cl {
